@@ -423,6 +423,7 @@ impl Property for C20 {
         let mut errors = 0usize;
         let mut nexts = 0usize;
         let mut si = 0usize;
+        let mut applied_between = 0usize;
         let budget = sc.pkgs.len() + sc.strays.len() + 8;
         loop {
             while si < sc.installer.len() && sc.installer[si].after_next <= nexts {
@@ -441,8 +442,9 @@ impl Property for C20 {
                     let _ = std::fs::remove_file(&f);
                     exists[st.pkg][st.file] = false;
                 }
-                ctx.step("installer", st.pkg as u64, (st.file as u64) << 1 | st.add as u64);
-                ctx.fault("installer_between_next_calls");
+                // (logged after the iteration, in script order: how many of these
+                // steps fall between next() calls depends on readdir order)
+                applied_between += 1;
             }
             nexts += 1;
             if nexts > budget {
@@ -487,8 +489,15 @@ impl Property for C20 {
                 let _ = std::fs::remove_file(&f);
                 exists[st.pkg][st.file] = false;
             }
-            ctx.step("installer", st.pkg as u64, (st.file as u64) << 1 | st.add as u64);
-            ctx.fault("installer_after_iteration");
+        }
+        for st in &sc.installer {
+            if st.pkg < sc.pkgs.len() && st.file < NFILES {
+                ctx.step("installer", st.pkg as u64, (st.file as u64) << 1 | st.add as u64);
+                ctx.fault("installer_step");
+            }
+        }
+        if applied_between > 0 {
+            ctx.probe("installer-steps-between-next-calls");
         }
         // readdir order is real and not owned by the simulator: the event log
         // holds only what cannot depend on it (yields of packages whose
